@@ -47,6 +47,24 @@ pub struct Seg {
     /// class "block": a random block of this many bytes repeated
     #[serde(default)]
     pub period: usize,
+    /// class "echo": alphabet size of the repeated block (0 = 256)
+    #[serde(default)]
+    pub alpha: u32,
+    /// class "echo": mean spacing of the bytes that differ from the block (0 = none)
+    #[serde(default)]
+    pub noise: usize,
+    /// class "echo": offsets (within the segment) of forced deviations from the block
+    #[serde(default)]
+    pub marks: Vec<Mark>,
+}
+
+#[derive(Deserialize, Clone, Debug)]
+pub struct Mark {
+    pub at: usize,
+    /// the deviating byte and the two block bytes behind it also occur 40 bytes earlier (a short near match starts at
+    /// the mark, a long match at the block period one byte later)
+    #[serde(default)]
+    pub la: bool,
 }
 
 #[derive(Deserialize, Clone, Debug)]
@@ -125,6 +143,38 @@ pub fn seg_data(s: &Seg) -> Vec<u8> {
             while v.len() < s.len {
                 let n = (s.len - v.len()).min(p);
                 v.extend_from_slice(&blk[..n]);
+            }
+            v
+        }
+        "echo" => {
+            // a random block over a small alphabet repeated with period `period` (every position has a candidate at exactly
+            // that distance while its 2- / 3-byte prefixes also occur nearby), copies differing from the block in single
+            // bytes (`noise`: matches at the period stay short, so the match finder is consulted every few positions);
+            // `marks` force a deviation at given offsets and keep their neighbourhood free of other deviations
+            let p = s.period.max(1);
+            let a = if s.alpha == 0 || s.alpha > 256 { 256u64 } else { s.alpha.max(2) as u64 };
+            let mut r = gen::Rng::new(s.seed ^ 0xEC40);
+            let blk: Vec<u8> = (0..p).map(|_| r.below(a) as u8).collect();
+            let mut v: Vec<u8> = (0..s.len).map(|i| blk[i % p]).collect();
+            let other = |r: &mut gen::Rng, b: u8| ((b as u64 + 1 + r.below(a - 1)) % a) as u8;
+            if s.noise > 0 {
+                for i in 0..s.len {
+                    if r.below(s.noise as u64) == 0 && !s.marks.iter().any(|m| (i + 48 >= m.at && i <= m.at + 16) || (i + p + 48 >= m.at && i + p <= m.at + 16)) {
+                        v[i] = other(&mut r, blk[i % p]);
+                    }
+                }
+            }
+            for m in &s.marks {
+                if m.at + 3 > s.len {
+                    continue;
+                }
+                let c = other(&mut r, blk[m.at % p]);
+                v[m.at] = c;
+                if m.la && m.at >= 40 {
+                    v[m.at - 40] = c;
+                    v[m.at - 39] = blk[(m.at + 1) % p];
+                    v[m.at - 38] = blk[(m.at + 2) % p];
+                }
             }
             v
         }
